@@ -2,10 +2,12 @@
 import gen, streams, grammar
 from common import *
 import sqlparse
-from sqlparse import lexer, tokens as T
+from sqlparse import lexer, sql, tokens as T
 import props.C02 as C02
 
-RULE = 'inputs as C02; every statement, every node, every character offset, every child index; non-trivial = distinct input with at least one group node'
+RULE = ('inputs as C02 (incl. its boundary sweep), nestings of depth 33..120 of every bracket/block/function kind, every dictionary word in operand/operator/argument position; '
+        'every statement, every node, every character offset, every child index; within/has_ancestor/is_child_of asked about every group class, the node itself, its children, every ancestor, '
+        'a sibling and a node of another statement (full truth tables); token_next/token_prev in all four skip_ws/skip_cm variants; non-trivial = distinct input with at least one group node')
 ASSUMPTIONS = C02.ASSUMPTIONS + ['heap model of TokenList.__init__/group_tokens tied by S-HEAP (random call scripts on real objects); that grouping mutates the tree only through group_tokens is a syntactic check of grouping.py on every run']
 PARTIAL = ['bookkeeping clause: a theorem for every history of group_tokens calls on the heap model (SqlProps/C03 (d)); that the 25 passes issue exactly such calls is the confinement check + S-TREE, and the result is also checked on the real objects',
            'only */operator tokens are re-typed: oracle only (the theorem allows any token to be re-typed to Operator)']
@@ -50,6 +52,73 @@ def confinement(ctx):
     ctx.meta['confinement'] = {'file': 'sqlparse/engine/grouping.py', 'mutation_sites_outside_group_tokens': bad}
     if bad:
         ctx.broken.append(('confinement:grouping.py', '; '.join(bad[:5])))
+
+
+GROUP_CLASSES = sorted((c for c in vars(sql).values() if isinstance(c, type) and issubclass(c, sql.TokenList)), key=lambda c: c.__name__)
+
+
+def _is_comment(t):
+    return (t.ttype is not None and t.ttype in T.Comment) or isinstance(t, sql.Comment)
+
+
+def navigation(ctx, s, stmts):
+    """within / has_ancestor / is_child_of against the containment structure, asked about everything a caller can ask about: every group
+    class, the node itself, its own children, each proper ancestor, a sibling, and a node of another statement.  Returns False after a failure."""
+    other = stmts[0] if len(stmts) > 1 else None
+    for si, st in enumerate(stmts):
+        foreign = [x for x in ([other] if si else [stmts[-1]] if len(stmts) > 1 else []) if x is not None and x is not st]
+        foreign += [x.tokens[0] for x in foreign if x.tokens]
+        stack = [(st, [])]          # node, proper ancestors innermost first
+        while stack:
+            n, anc = stack.pop()
+            for cls in GROUP_CLASSES:
+                want = any(isinstance(a, cls) for a in anc)
+                if bool(n.within(cls)) != want:
+                    ctx.fail('within(cls) disagrees with the chain of enclosing groups', s, observed=bool(n.within(cls)), required=want,
+                             node=repr(n), cls=cls.__name__, enclosing=[type(a).__name__ for a in anc])
+                    return False
+            probes = [n] + anc + foreign
+            if n.is_group and n.tokens:
+                probes += [n.tokens[0], n.tokens[-1]]
+            if anc:
+                sibs = anc[0].tokens
+                i = next(j for j, t in enumerate(sibs) if t is n)
+                probes += [sibs[j] for j in (i - 1, i + 1) if 0 <= j < len(sibs)]
+            for x in probes:
+                want = any(a is x for a in anc)
+                if bool(n.has_ancestor(x)) != want:
+                    ctx.fail('has_ancestor(x) disagrees with the chain of enclosing groups', s, observed=bool(n.has_ancestor(x)), required=want,
+                             node=repr(n), asked=repr(x), is_self=x is n)
+                    return False
+                want = n.parent is x
+                if bool(n.is_child_of(x)) != want:
+                    ctx.fail('is_child_of(x) disagrees with the parent reference', s, observed=bool(n.is_child_of(x)), required=want,
+                             node=repr(n), asked=repr(x), is_self=x is n)
+                    return False
+            if n.is_group:
+                for ch in n.tokens:
+                    stack.append((ch, [n] + anc))
+    return True
+
+
+def neighbours(ctx, s, n):
+    """token_next / token_prev with every combination of skip_ws / skip_cm against a direct scan of the children"""
+    for skip_ws in (True, False):
+        for skip_cm in (False, True):
+            def keep(t):
+                return not ((skip_ws and t.is_whitespace) or (skip_cm and _is_comment(t)))
+            for i in range(len(n.tokens)):
+                ni, nt = n.token_next(i, skip_ws=skip_ws, skip_cm=skip_cm)
+                want = next(((j, t) for j, t in enumerate(n.tokens) if j > i and keep(t)), (None, None))
+                if ni != want[0] or nt is not want[1]:
+                    ctx.fail('token_next(skip_ws=%s, skip_cm=%s) disagrees with a direct scan' % (skip_ws, skip_cm), s, observed=ni, required=want[0], index=i)
+                    return False
+                pi, pt = n.token_prev(i, skip_ws=skip_ws, skip_cm=skip_cm)
+                wantp = next(((j, n.tokens[j]) for j in range(i - 1, -1, -1) if keep(n.tokens[j])), (None, None))
+                if pi != wantp[0] or pt is not wantp[1]:
+                    ctx.fail('token_prev(skip_ws=%s, skip_cm=%s) disagrees with a direct scan' % (skip_ws, skip_cm), s, observed=pi, required=wantp[0], index=i)
+                    return False
+    return True
 
 
 def oracle(ctx, s):
@@ -107,6 +176,8 @@ def oracle(ctx, s):
                     stack.append(ch)
                 else:
                     seen.add(id(ch))
+            if not neighbours(ctx, s, n):
+                return
             # token_next / token_prev against a direct scan
             for i in range(len(n.tokens)):
                 ni, nt = n.token_next(i)
@@ -132,12 +203,46 @@ def oracle(ctx, s):
             if got is not want:
                 ctx.fail('get_token_at_offset disagrees with the leaf spans', s, observed=repr(got), required=repr(want), offset=off)
                 return
+    if not navigation(ctx, s, stmts):
+        return
     if groups:
         ctx.nontrivial.add(s)
 
 
+# --- red-team hardening -----------------------------------------------------------------------------------------------------------
+def deep_inputs(ctx):
+    """nestings deeper than any fixed small bound a guard might use (33 … 120 levels), of every kind of group that nests"""
+    for d in ctx.n((33, 65), (33, 48, 65, 90, 120)):
+        yield '(' * d + 'a' + ')' * d
+        yield '[' * d + '1' + ']' * d
+        yield 'select ' + '(select ' * d + '1' + ')' * d + ' from t'
+        yield ('begin ' * d + 'x;' + ' end' * d)
+    for d in ctx.n((33, 40), (33, 48, 65, 90)):
+        yield 'f(' * d + 'x, y' + ')' * d
+        yield 'case when a then ' * d + 'b' + ' end' * d
+        yield 'a' + ''.join(' + (b%d' % i for i in range(d)) + ')' * d
+    yield '(' * 120 + 'a' + ')' * 120
+    yield 'select (1); ' + '(' * 40 + 'x' + ')' * 40 + '; select f(g(h(1)))'
+
+
+def dictionary_inputs(ctx):
+    """every word of the keyword dictionaries where an operand, an infix operator, a function name and an argument can stand: whatever a pass
+    decides to do with a particular word, the leaves must stay the lexer's tokens"""
+    import props.C18 as C18
+    words = C18.all_dictionary_words()
+    if ctx.quick():
+        words = [w for i, w in enumerate(words) if (i + ctx.seed) % 2 == 0] + ['MOD', 'DIV', 'NULL', 'AS', 'IN', 'IS', 'CURRENT_DATE']
+    for w in words:
+        yield 'a %s b, 1 %s 2' % (w, w.lower())
+        yield 'select %s(x) %s, t.%s from %s where c = %s' % (w, w, w, w, w)
+
+
 def run(ctx):
     ins = [c['input'] for c in streams.corpus('C03')] + C02.inputs(ctx, ctx.n(2000, 40000), ctx.n(400, 8000))
+    extra = list(deep_inputs(ctx)) + list(dictionary_inputs(ctx)) + list(C02.boundary_sweep(2))
+    ctx.count('deep/dictionary/boundary inputs', len(extra))
+    for s in extra:
+        oracle(ctx, s)
     for s in ins:
         oracle(ctx, s)
     ctx.samples += [short(s, 80) for s in ins[-2:]]
